@@ -171,13 +171,13 @@ func (e *Exec) execInstr(fr *Frame, st *State, in ssa.Instruction) bool {
 		fr.addrs[x] = a
 		return true
 	case *ssa.FieldAddr:
-		base := e.val(fr, x.X, st)
 		stt, T := structOf(x.X.Type())
 		f := stt.Field(x.Field)
 		if ba, ok := fr.addrs[x.X]; ok && ba.kind == aField {
 			fr.addrs[x] = &Addr{kind: aField, base: ba.base, T: ba.T, path: ba.path + "." + f.Name(), ft: f.Type()}
 			return true
 		}
+		base := e.val(fr, x.X, st)
 		e.safety(fr, st, in, "nil", sNot(sEq(base.t(), "0")), "nil dereference in field access ."+f.Name())
 		fr.addrs[x] = &Addr{kind: aField, base: base.t(), T: T, path: f.Name(), ft: f.Type()}
 		return true
